@@ -1,13 +1,14 @@
 #!/bin/bash
+# usage: git -C /repo worktree add --detach /tmp/fixwt HEAD; fixdemo/verify.sh; git -C /repo worktree remove --force /tmp/fixwt
 # Re-verifies every demo: FAIL on the parent of its fix commit, PASS on the fix commit, PASS on the branch tip.
 export GOFLAGS=-mod=mod GOPROXY=off GOSUMDB=off GOTOOLCHAIN=local; unset GOWORK
 cd /tmp/fixwt || exit 2
-ids=(F01 F02 F03 F04 F05 F06 F32 F07 F08 F09 F10 F12 F13 F11 F14 F15 F16 F17 F18 F33 F19 F20 F21 F22 F23 F25 F24 F26 F27 F28 F29 F30 F31 K1)
-mapfile -t shas < <(git log --reverse --format='%h' a008283..fixes)
+ids=(F01 F02 F03 F04 F05 F06 F32 F07 F08 F09 F10 F12 F13 F11 F14 F15 F16 F17 F18 F33 F19 F20 F21 F22 F23 F25 F24 F26 F27 F28 F29 F30 F31 K1 F35 F36 F37 F38 F39 F40)
+mapfile -t shas < <(git log --reverse --format='%h' a008283..main)
 run() { # id -> rc
   local id=$1 pkg=exec
-  head -1 /tmp/fixdemo/${id}_test.go | grep -q 'store/' && pkg=store
-  cp /tmp/fixdemo/${id}_test.go $pkg/zz_demo_test.go
+  head -1 /verif/fixdemo/${id}_test.go | grep -q 'store/' && pkg=store
+  cp /verif/fixdemo/${id}_test.go $pkg/zz_demo_test.go
   go test -vet=off -count=1 -run "TestDemo${id}" ./$pkg/ >/dev/null 2>&1; local rc=$?
   rm -f $pkg/zz_demo_test.go
   return $rc
@@ -19,6 +20,6 @@ for i in "${!ids[@]}"; do
   files=$(git show --name-only --format= $sha | tr '\n' ' ')
   echo "$id $sha before_rc=$before after_rc=$after files: $files"
 done
-git checkout -q fixes
+git checkout -q --detach main
 for id in "${ids[@]}"; do run $id || echo "TIP FAIL $id"; done
 echo "tip check done"; git status --short; git branch --show-current
